@@ -465,6 +465,40 @@ def specialised(p, cls, name, depth=3):
                 self.level -= 1
             return ast.copy_location(new, c)
 
+    # dispatch on the class through a module-level table: `TABLE[type(self)](self, ..)` is, for instances of `cls`,
+    # the row stored under `cls` (a lambda is applied in place)
+    class TypeTable(ast.NodeTransformer):
+        def visit_Call(self, c):
+            nonlocal changed_any
+            self.generic_visit(c)
+            fn = c.func
+            if not (isinstance(fn, ast.Subscript) and isinstance(fn.value, ast.Name) and isinstance(fn.slice, ast.Call) and isinstance(fn.slice.func, ast.Name) and fn.slice.func.id == "type" and len(fn.slice.args) == 1 and isinstance(fn.slice.args[0], ast.Name) and fn.slice.args[0].id == selfname):
+                return c
+            tabs = [a.value for a in m.module.tree.body if isinstance(a, ast.Assign) and any(isinstance(t, ast.Name) and t.id == fn.value.id for t in a.targets)]
+            if len(tabs) != 1 or not isinstance(tabs[0], ast.Dict):
+                return c
+            row = None
+            for k, v in zip(tabs[0].keys, tabs[0].values):
+                r = p.resolve_expr(m.module, k, None) if k is not None else None
+                if r and r[0] == "class" and r[1] is cls:
+                    row = v
+            if row is None or c.keywords or any(isinstance(a, ast.Starred) for a in c.args):
+                return c
+            if isinstance(row, ast.Lambda):
+                la = row.args
+                if la.vararg or la.kwarg or la.kwonlyargs or la.defaults or len(la.args) != len(c.args):
+                    return c
+                inner = {y.arg for y in ast.walk(row.body) if isinstance(y, ast.arg)} | {t.id for q in ast.walk(row.body) if isinstance(q, ast.comprehension) for t in ast.walk(q.target) if isinstance(t, ast.Name)}
+                if inner & ({q.arg for q in la.args} | {y.id for a in c.args for y in ast.walk(a) if isinstance(y, ast.Name)}):
+                    return c
+                changed_any = True
+                return ast.copy_location(Sub(dict(zip([q.arg for q in la.args], c.args))).visit(_clone(row.body)), c)
+            if isinstance(row, (ast.Name, ast.Attribute)):
+                changed_any = True
+                return ast.copy_location(ast.Call(func=_clone(row), args=c.args, keywords=[]), c)
+            return c
+
+    node.body = [TypeTable().visit(st) for st in node.body]
     node.body = [Inl().visit(st) for st in node.body]
 
     # `return self._rewrite(x, transform)` with a multi-statement hook: the hook's statements take the place of the return
